@@ -25,7 +25,10 @@ MANIFEST = dict(
          "has_class results, return identity and css() output on histories of <= 5 calls and css keyword sets, "
          "exhaustive small scope + random; the executable (unguarded) statement is evaluated by the Lean driver on the "
          "real answers step by step; str.isspace is tabulated from the running interpreter (all code points) and "
-         "str.lower is applied by the interpreter to exactly the strings css() lower-cases.",
+         "str.lower is applied by the interpreter to exactly the strings css() lower-cases. Source tie (DESIGN §14, "
+         "Props/SrcC16.lean): src_has_class / src_add_class / src_add_style / src_remove_class / src_css prove, for all inputs, "
+         "every whitespace predicate and every lower-casing map, that the Lean functions regenerated from the text of the five "
+         "functions compute what the model computes; the regenerated functions are run against the real ones (ops src, srcc16).",
     design="DESIGN.md §6 C16, §7 F-C16",
     note="Modelled, not verified: str.split()/strip() as functions of the tabulated str.isspace; str.lower as an "
          "opaque whole-string function (CPython's is per-character except for Greek final sigma, so the per-character "
@@ -83,6 +86,8 @@ def nontrivial(attrs, steps) -> bool:
 
 
 def rand_token(rng):
+    if gen.EXTRA and rng.random() < 0.2:      # change-directed: a literal the source has gained (DESIGN §14.4)
+        return rng.choice(gen.EXTRA)
     r = rng.random()
     if r < 0.45:
         return rng.choice(["a", "b", "ab", "a-b", "foo", "foobar", "foo-x", "A", "é", "d<", "x&y", 'q"', "it's"])
